@@ -334,6 +334,12 @@ def gen_scenario(rng, prof=None, force_selflock=None):
         # between two runs the driven part is also mounted on a second motor (sim/build.py 'remount')
         idx_ = [k_ for k_, o_ in enumerate(sched) if o_['op'] == 'run'][1]
         sched.insert(idx_, {'op': rng.choice(['remount', 'twin'])})
+    if len([o_ for o_ in sched if o_['op'] == 'run']) >= 2 and rng.random() < p.get('p_swapsolver', 0.35):
+        # the continuation is issued through ANOTHER Solver object (a new one, or -- when there are several runs -- the two used
+        # alternately)
+        for k_ in [k_ for k_, o_ in enumerate(sched) if o_['op'] == 'run'][:0:-1]:
+            if sched[k_ - 1]['op'] not in ('reapply', 'reset', 'newpowertrain', 'newsolver', 'setload'):
+                sched.insert(k_, {'op': 'swapsolver'})
     if len([o_ for o_ in sched if o_['op'] == 'run']) >= 2 and rng.random() < p.get('p_report', 0.3):
         idx_ = [k_ for k_, o_ in enumerate(sched) if o_['op'] == 'run'][1]
         if sched[idx_ - 1]['op'] not in ('reapply', 'reset', 'newpowertrain', 'newsolver', 'setload'):
